@@ -13,7 +13,7 @@ CHECKS = {
     'C02': dict(cat='other', engine='E2',
                 technique='bounded symbolic execution of the real transpose/clone/convert/permute code over a symbolic real scalar for every pattern, clone mode, index-type pair and permutation in the bound; dense-expansion identities + layout validity',
                 text='Every pattern (incl. entry-free, empty rows), clone mode (same and other index type), conversion chain CSR<->CSCR/Banded/BCSR/other index type, row/column permutation and DenseMatrix transpose target shape inside the bound is executed on the real classes with symbolic values; results must represent the same (transposed / permuted) matrix for all values with correct dimensions and valid layout; clone aliasing by pointer identity and write-through.',
-                note='Trusted: SymReal instantiation, DAG printer, z3 5.1.0. Index arrays are concrete per swept pattern (exhaustive within the bound, not symbolic). Three defects fixed (transpose of entry-free matrix; CSCR conversion with empty rows; meta matrix -> CSR conversion with an entry-free block). Outside: data-type conversions, chains longer than 2 (BCSR transpose is covered in C03's blocked slice, BCSR clone / permute / index-type conversion here).',
+                note='Trusted: SymReal instantiation, DAG printer, z3 5.1.0. Index arrays are concrete per swept pattern (exhaustive within the bound, not symbolic). Three defects fixed (transpose of entry-free matrix; CSCR conversion with empty rows; meta matrix -> CSR conversion with an entry-free block). Outside: data-type conversions, chains longer than 2 (BCSR transpose is covered in the blocked slice of C03, BCSR clone / permute / index-type conversion here).',
                 ref='3/C02'),
     'C03': dict(cat='other', engine='E2',
                 technique='bounded symbolic execution of the real SparseMatrixCSR algebra over a symbolic real scalar; z3 (NRA) decides equality with the dense formula; abort reachability for rejected patterns',
